@@ -680,7 +680,106 @@ def gen_op(rng, S, parent_of=None):
         op["i"] = rng.randint(0, len(node.get("members") or []))
     elif o == "getitem":
         op["idx"] = gen_idx(rng, bs, good=rng.random() < 0.9)
+    lazify(rng, op, node)
     return op
+
+
+def desc_of(s):
+    """snapshot -> value descriptor that rebuilds an object of the same structure (None when not expressible)"""
+    k = s["k"]
+    if k == "leaf":
+        return ["t", list(s["shape"]), s["dev"]]
+    if k == "nt":
+        return ["ntd", list(s["bs"])]
+    if k == "td":
+        ents = []
+        for key, v in s.get("ents") or []:
+            d = desc_of(v)
+            if d is None:
+                return None
+            ents.append([key, d])
+        return ["td", list(s["bs"]), s["dev"], None, ents]
+    if k == "lazy":
+        ms = [desc_of(m) for m in s.get("members") or []]
+        if not ms or any(m is None for m in ms):
+            return None
+        return ["lazy", s["dim"], ms]
+    return None
+
+
+def lazy_like(rng, lz):
+    """a lazy-stack value shaped like the lazy stack `lz` (snapshot): fewer, as many, or MORE members, mostly on the same
+    stack dim, sometimes on another one; members are copies of lz's first member, sometimes with one key more / less"""
+    members = lz.get("members") or []
+    if not members:
+        return None
+    proto = desc_of(members[0])
+    if proto is None or proto[0] != "td":
+        return None
+    n = len(members)
+    k = rng.choice([max(1, n - 1), n, n, n + 1, n + 1, n + 2, n + 3])
+    mb = list(members[0]["bs"])
+    dim = lz["dim"]
+    if rng.random() < 0.2:
+        others = [d for d in range(len(mb) + 1) if d != dim]
+        if others:
+            dim = rng.choice(others)
+    out = []
+    for i in range(k):
+        m = json.loads(json.dumps(proto))
+        r = rng.random()
+        if r < 0.1 and m[4]:
+            m[4].pop(rng.randrange(len(m[4])))
+        elif r < 0.2:
+            m[4].append([rng.choice(KEYPOOL[:5]) + "2", ["t", mb + rshape(rng, 0, 1), m[2] or "cpu"]])
+        elif r < 0.25:
+            m[1] = bad_shape(rng, mb)
+            m[4] = []
+        out.append(m)
+    return ["lazy", dim, out]
+
+
+def lazify(rng, op, node):
+    """lazy-stack sources and values: update / update_ / update_at_ / index assignment / key assignment / append / insert
+    with a lazy stack, issued on a lazy stack or on the tensordict that holds one"""
+    o = op["op"]
+    if node["k"] == "lazy":
+        if o in ("update", "update_", "update_at_", "setitem_idx") and rng.random() < 0.5:
+            lv = lazy_like(rng, node)
+            if lv is not None:
+                op["value"] = lv
+                if o in ("update_at_", "setitem_idx") and rng.random() < 0.5:
+                    op["idx"] = ["sl", None, None, None] if node["bs"] else ["ell"]
+                if o == "update":
+                    op.pop("ktu", None)
+        elif o in ("lazy_append", "lazy_insert") and rng.random() < 0.3 and node.get("members"):
+            mb = list(node["members"][0]["bs"])
+            if mb:
+                d = rng.randrange(len(mb))
+                inner = mb[:d] + mb[d + 1:]
+                cnt = mb[d] if rng.random() < 0.8 else mb[d] + 1
+                if 0 < cnt <= 4:
+                    proto = gen_td(rng, inner, 1, node["dev"], empty_ok=False)
+                    op["value"] = ["lazy", d, [json.loads(json.dumps(proto)) for _ in range(cnt)]]
+        return
+    lazies = [(key, v) for key, v in (node.get("ents") or []) if v["k"] == "lazy"]
+    if not lazies or rng.random() > 0.45:
+        return
+    key, lz = rng.choice(lazies)
+    lv = lazy_like(rng, lz)
+    if lv is None:
+        return
+    if o in ("update", "update_", "update_at_"):
+        if o == "update_at_":
+            return
+        if rng.random() < 0.5:
+            op["value"] = ["dict", [[key, lv]]]
+        else:
+            op["value"] = ["td", list(node["bs"]), None, None, [[key, lv]]]
+        op.pop("ktu", None)
+    elif o in ("set", "setitem", "setdefault", "set_"):
+        op["key"] = [key]
+        op["value"] = lv
 
 
 # ====================================================================================================== scope
@@ -703,6 +802,9 @@ def in_scope(S, op):
         return op.get("k") is None or op["k"] >= len(pbs)
     if o == "update" and op.get("ubs"):
         v = op["value"]
+        if v[0] == "lazy":
+            # re-initialises the stack from the source's members: the stack dim must not be one of the parent's dims
+            return v[1] >= len(pbs)
         return v[0] == "td" and list(v[1])[:len(pbs)] == pbs
     if o in ("lazy_append", "lazy_insert"):
         node = dict(parent.get("ents") or []).get(path[-1]) or {}
